@@ -261,6 +261,18 @@ func runSelectorStream(c *ctx) error {
 		}
 	}
 	rec(nil, k)
+	// bounds written with leading zeros, two digits and more, on a list and a string long enough to tell position 8 from 10
+	// and 15 from 17 (bounds are decimal)
+	{
+		long := "l(i0,i1,i2,i3,i4,i5,i6,i7,i8,i9,i10,i11,i12,i13,i14,i15,i16,i17,i18)"
+		for _, t := range []string{".[010]", ".[10]", ".[08]", ".[8]", ".[017]", ".[17]", ".[010:]", ".[:010]", ".[08:010]", ".[-010]", ".[-10]", ".[010]?", ".[09:]", ".[0010]", ".[00]", ".[007]"} {
+			for _, v := range []string{long, "s" + hxsRaw("abcdefghijklmnopqrs"), "b" + hxsRaw("abcdefghijklmnopqrs")} {
+				c.emitG("sel.select "+hxs(t)+" "+lettersOracle(t)+" "+v, "selector.Select[decimal-bounds]",
+					func(g string) bool { return true },
+					func(g string) []string { return []string{"select-decimal:" + strings.Fields(g)[0]} })
+			}
+		}
+	}
 	// random longer selectors on random trees
 	n := 20000
 	if c.thoro {
